@@ -18,7 +18,7 @@ from gen import g1
 from corr.c01 import components_ok
 
 WORKER = os.path.join(VERIF, "harness", "det_worker.py")
-QUICK_FILES = ["1A1T_1_B.cif", "1DFU_1_M-N.cif", "4WTI_1_T-P.cif", "1ATO.pdb"]
+QUICK_FILES = ["1A1T_1_B.cif", "1DFU_1_M-N.cif", "4WTI_1_T-P.cif", "1ATO.pdb", "1ehz-assembly-1.cif"]
 
 
 def run_worker(jobs, seed):
@@ -27,6 +27,27 @@ def run_worker(jobs, seed):
     env["LOGLEVEL"] = "ERROR"
     p = subprocess.Popen(["/venv/bin/python", WORKER], stdin=subprocess.PIPE, stdout=subprocess.PIPE, stderr=subprocess.PIPE, env=env)
     return p
+
+
+def fr3d_listing(rng):
+    """the repository's FR3D listing for 184D plus extra cWW lines giving some nucleotides 2-3 competing partners"""
+    base = open("/repo/tests/184D-fr3d.txt").read().splitlines()
+    units = sorted({l.split("\t")[0] for l in base if l.count("\t") >= 2} | {l.split("\t")[2] for l in base if l.count("\t") >= 2})
+    comp = {"DG": "DC", "DC": "DG", "DA": "DT", "DT": "DA", "G": "C", "C": "G", "A": "U", "U": "A"}
+    extra = []
+    for _ in range(rng.randint(2, 8)):
+        u = rng.choice(units)
+        name = u.split("|")[3]
+        cands = [v for v in units if v != u and v.split("|")[3] == comp.get(name)]
+        if not cands:
+            continue
+        for v in rng.sample(cands, min(len(cands), rng.randint(1, 3))):
+            extra.append("%s\tcWW\t%s\t0" % (u, v))
+            if rng.random() < 0.5:
+                extra.append("%s\tcWW\t%s\t0" % (v, u))
+    lines = base + extra
+    rng.shuffle(lines)
+    return "\n".join(lines) + "\n"
 
 
 def inventory_check(res):
@@ -61,6 +82,9 @@ def run(ctx):
             jobs.append({"kind": "file", "path": p, "find_gaps": False, "all": True})
             if not ctx.quick:
                 jobs.append({"kind": "file", "path": p, "find_gaps": True, "all": True})
+    # adapter path: corpus structure + FR3D listings in which one nucleotide has several competing canonical pairs
+    for _ in range(ctx.pick(6, 40)):
+        jobs.append({"kind": "external", "path": os.path.join(tdir, "184D.cif"), "listing": fr3d_listing(rng), "find_gaps": False})
     structs = [c for c in g1.handmade()]
     for k in (3, 4, 5):
         structs.append(g1.ladder(k))
@@ -87,8 +111,8 @@ def run(ctx):
     ref_key = next(iter(results))
     for ji, job in enumerate(jobs):
         ref = results[ref_key][ji]["first"]
-        nontrivial = job["kind"] == "file"
-        name = os.path.basename(job["path"]) if job["kind"] == "file" else "bpseq"
+        nontrivial = job["kind"] in ("file", "external")
+        name = os.path.basename(job["path"]) if job["kind"] in ("file", "external") else "bpseq"
         res.count("job:" + job["kind"])
         inp = {k: v for k, v in job.items()}
         bad = set()
